@@ -518,4 +518,4 @@ V("C02-reput-counts-again","C02",MB+"put.go","""		if _, typErr := fetchTypeForID
 			return diff, nil
 		}
 ""","",rule="C02.R7")
-V("C02-tombstone-double-count","C02",MB+"put.go","if !bytes.Equal(k, garbageKey) && inGarbage(metaCursor, id) == statusAvailable {","_ = k\n\t\t\t\tif inGarbage(metaCursor, id) == statusAvailable {",rule="C02.R5")
+V("C02-tombstone-double-count","C02",MB+"put.go","if !bytes.Equal(k, garbageKey) && inGarbage(metaCursor, id) == statusAvailable {","if !bytes.Equal(k, nil) && inGarbage(metaCursor, id) == statusAvailable {",rule="C02.R5")
